@@ -252,6 +252,37 @@ def shard(ctx):
                                   {"base": texts[0], "variant": texts[1], "data": pdoc, "rel": ["same"]})
                 else:
                     ctx.res.distinct.add(("nested-calls", bi, top, sts[0].get("top")))
+    # ---- several type blocks for ONE resource type, some of which skip for every resource: line order within a rule, rule order within a file
+    if ctx.mine(4):
+        import itertools as _it3
+        tdoc = json.dumps({"Resources": {"b1": {"Type": "AWS::S3::Bucket", "Properties": {"a": 1}}, "b2": {"Type": "AWS::S3::Bucket", "Properties": {"a": 2}},
+                                         "t1": {"Type": "AWS::SNS::Topic", "Properties": {"a": 1}}}})
+        blocks = ["AWS::S3::Bucket {\n        when Properties.zz exists {\n            Properties.a == 1\n        }\n    }",
+                  "AWS::S3::Bucket {\n        Properties.a == 99\n    }", "AWS::S3::Bucket {\n        Properties.a >= 1\n    }",
+                  "AWS::SNS::Topic {\n        when Properties.zz exists {\n            Properties.a == 5\n        }\n    }", "AWS::SNS::Topic {\n        Properties.a == 1\n    }"]
+        for combo in ([0, 1], [0, 2], [3, 4], [0, 1, 2], [0, 3, 4, 2]):
+            base_text = "rule one {\n" + "".join("    %s\n" % blocks[i] for i in combo) + "}\n" + "".join("rule r%d {\n    %s\n}\n" % (i, blocks[i]) for i in combo)
+            base, _ = status_map(ctx, base_text, tdoc)
+            ctx.res.cases += 1
+            if not isinstance(base, dict):
+                ctx.inconclusive("type-block-group-error")
+                continue
+            perms = list(_it3.permutations(combo))[1:7]
+            for pm in perms:
+                for text, label in (("rule one {\n" + "".join("    %s\n" % blocks[i] for i in pm) + "}\n" + "".join("rule r%d {\n    %s\n}\n" % (i, blocks[i]) for i in combo), "permute-lines"),
+                                    ("rule one {\n" + "".join("    %s\n" % blocks[i] for i in combo) + "}\n" + "".join("rule r%d {\n    %s\n}\n" % (i, blocks[i]) for i in pm), "permute-rules"),
+                                    ("".join("rule r%d {\n    %s\n}\n" % (i, blocks[i]) for i in pm) + "rule one {\n" + "".join("    %s\n" % blocks[i] for i in pm) + "}\n", "both")):
+                    st, _ = status_map(ctx, text, tdoc)
+                    ctx.res.cases += 1
+                    ctx.res.counts["type_block_order_variants"] += 1
+                    if not isinstance(st, dict):
+                        ctx.inconclusive("type-block-group-error")
+                        continue
+                    why = compare(base, st, ("same",))
+                    if why:
+                        ctx.violation("order:type-blocks-of-one-type:%s" % label, "%s\n--- base\n%s--- variant\n%s" % (why, base_text, text), {"base": base_text, "variant": text, "data": tdoc, "rel": ["same"]})
+                    else:
+                        ctx.res.distinct.add(("type-blocks", tuple(combo), label))
     nbase = 90 if ctx.quick else 2600
     vorders = set()
     rpatterns = set()
